@@ -116,9 +116,10 @@ def test(inp):
                 if arr[k] != inf_lin[n]:
                     return f'infinite values: patch {k} shows cell {n} but carries another value'
         e = variants['by name'][1].ems
-        c2 = e.make_poly_collection('marker', clim=(1.0, 2.0))
-        if tuple(c2.get_clim()) != (1.0, 2.0):
-            return 'caller clim not honoured'
+        for want_clim in ((1.0, 2.0), (0.0, 50.0), (0, 30), (-5.0, 0.0), (0.0, 0.0)):
+            c2 = e.make_poly_collection('marker', clim=want_clim)
+            if tuple(c2.get_clim()) != tuple(float(x) for x in want_clim) and tuple(c2.get_clim()) != tuple(want_clim):
+                return f'caller clim {want_clim} not honoured: {tuple(c2.get_clim())}'
         c3 = e.make_poly_collection(array=numpy.arange(len(present)) * 1.0)
         if list(c3.get_array()) != list(numpy.arange(len(present)) * 1.0):
             return 'caller array not honoured'
